@@ -251,6 +251,17 @@ def main(argv=None):
             out = mod.replay(ctx, data)
         else:
             out = mod.run(ctx)
+            # saved regression inputs (shrunk failures of earlier findings) are replayed on every run
+            import glob
+            for rp in sorted(glob.glob(os.path.join(VERIF, "regress", prop.lower() + "_*.json"))):
+                data = json.load(open(rp))
+                if "case" not in data:
+                    continue
+                r = mod.replay(ctx, data)
+                for v in r.violations:
+                    v["desc"] = "regression input %s: %s" % (os.path.basename(rp), v["desc"])
+                out.merge(r)
+                out.hist["regression_inputs_replayed"] += 1
     except HarnessError as ex:
         print("HARNESS-ERROR (inconclusive, not a violation): %s" % ex)
         return 2
